@@ -295,7 +295,7 @@ fn run(ctx: &Ctx) {
         any::<bool>(),
     )
         .prop_map(|(items, cfg, flips, buffered)| Case { items, cfg, flips, buffered });
-    ctx.run_proptest("histories-with-flips", ctx.tier.pick(600_000, 6_000_000), strat, check);
+    ctx.run_proptest("histories-with-flips", ctx.tier.pick(1_500_000, 10_000_000), strat, check);
 }
 
 fn replay(_stage: &str, case: &Value) -> Result<Verdict, String> {
